@@ -42,3 +42,14 @@ def unpack_rep(b: "arr"):
     option("auto_for", "bits_of_bytes")
     requires(bytes_ok(b))
     ensures(Rep(b, bits_of_bytes(b)) and len(bits_of_bytes(b)) == 8 * arr_len(b))
+
+
+@lemma("lemmas:max_is_enum_max")
+def max_is_enum_max(e: "ref:Enum", k: "int"):
+    """the builtin maximum of the enumerator values equals the spec's largest enumerator (values are non-negative)"""
+    requires(enum_values_ok(e) and 0 <= k and k <= len(e.enumeration))
+    ensures(py_max([x.value for x in e.enumeration], k, 0) == enum_max_from(e.enumeration, k))
+    ensures(enum_max_from(e.enumeration, k) >= 0)
+    decreases(k)
+    if k > 0:
+        max_is_enum_max(e, k - 1)
